@@ -1,5 +1,6 @@
 """No-false-alarm regression: behaviour-preserving refactors (selftest/benign/*.diff) are applied to a scratch worktree of
-/repo HEAD and the checks must stay silent (exit 0).  usage: benigntest.py [--props C01,C02,...]"""
+/repo HEAD and the checks must stay silent (exit 0).  usage: benigntest.py [--props C01,C02,...] [--all] [--only name,...]
+(the four hand-written refactors run against the properties their code touches; the sub-agent written ones, B??, against all twenty)"""
 import glob
 import json
 import os
@@ -12,6 +13,9 @@ PROPS = {"memoised-hash-with-invalidation": ["C02", "C06", "C16"], "closed-form-
          "empty-duration-spelled-P0D": ["C10", "C11", "C14", "C19"], "month-at-a-time-day-carry": ["C01", "C05", "C04", "C20"]}
 
 
+ALL = ["C%02d" % i for i in range(1, 21)]
+
+
 def main():
     only = None
     for i, a in enumerate(sys.argv):
@@ -19,13 +23,15 @@ def main():
             only = set(sys.argv[i + 1].split(","))
     for d in sorted(glob.glob(os.path.join(ROOT, "selftest", "benign", "*.diff"))):
         name = os.path.basename(d)[:-5]
+        if "--only" in sys.argv and name not in sys.argv[sys.argv.index("--only") + 1].split(","):
+            continue
         wt = tempfile.mkdtemp(prefix="isodt_benign_")
         os.rmdir(wt)
         subprocess.run(["git", "-C", "/repo", "worktree", "add", "-q", "--detach", wt, "HEAD"], check=True)
         try:
             subprocess.run(["git", "-C", wt, "apply", d], check=True)
             res = {}
-            for p in PROPS.get(name, []):
+            for p in (ALL if "--all" in sys.argv else PROPS.get(name, ALL)):
                 if only and p not in only:
                     continue
                 r = subprocess.run([os.path.join(ROOT, "check"), p], cwd=ROOT, capture_output=True, text=True,
